@@ -120,3 +120,185 @@ Proof.
   cbv zeta. split; [reflexivity|]. split; [repeat constructor|]. vm_compute. repeat split.
 Qed.
 End C01_translated.
+
+(* ------------------------------------------------------------------------------------------ *)
+(* THE MODEL IS THE C TEXT (coq/TrSbuf.v): the growable string buffer /repo/sbuf.c -- sbuf_make, sbuf_len, sbuf_cut, sbuf_extend,
+   sbuf_mem, sbuf_str, sbuf_chr, sbuf_buf, sbuf_done, sbuf_free --, translated by tools/c2clite.py (coq/GenCFuncs.v, whitelist
+   tools/c2clite.d/90_sbuf.list) and RUN by the checked semantics of coq/CLite.v, in which malloc appends a fresh block of
+   indeterminate cells, free empties a block (any later access through the pointer is Err EOob), memcpy/memset read and write
+   cell by cell, checked.  `struct sbuf { char *s; int s_n; int s_sz; }` is a block of three cells;
+   sbuf_rep m p cs sz: block p of m is a live struct sbuf holding the char cells cs (as the ints the C code stored; the byte the
+   model sees is the cell modulo 256: byte_of, sb_model) in an allocation of EXACTLY sz cells, |cs| < sz, or s = NULL with
+   s_n = s_sz = 0.  Every theorem: for ALL memories satisfying sbuf_rep the call returns Ok -- so every load, store, memcpy and
+   free it made was inside a live block --, the new memory satisfies sbuf_rep for the MODEL's new contents and capacity
+   (IoDefs.sbuf_mem / sbuf_chr / sbuf_buf, NEXTSZ / ALIGN / SBUFSZ), and sbuf_step: memory only grew, the data block is the old
+   one or a fresh one, every other block that existed before is unchanged.  The one side condition is sbuf_fits: the size
+   computation of NEXTSZ stays inside int (discharged below 500 MB by C01_tr_sbuf_from_make). *)
+From NV Require TrSbuf.
+Section C01_translated_sbuf.
+Import CLite CLiteProps GenCFuncs TrSbuf.
+
+Theorem C01_tr_sbuf_make : forall m d fuel,
+  callf cprog fuel (S d) F_sbuf_make [] m = Ok (VPtr (length m) 0, m ++ [[VInt 0; VInt 0; VInt 0]]) /\
+  sbuf_rep (m ++ [[VInt 0; VInt 0; VInt 0]]) (length m) [] 0.
+Proof. exact (fun m d fuel => conj (tr_sbuf_make m d fuel) (rep_make m)). Qed.
+Print Assumptions C01_tr_sbuf_make.
+
+Theorem C01_tr_sbuf_len : forall m p cs sz d fuel, sbuf_rep m p cs sz ->
+  callf cprog fuel (S d) F_sbuf_len [VPtr p 0] m = Ok (VInt (Z.of_nat (length cs)), m).
+Proof. exact tr_sbuf_len. Qed.
+Print Assumptions C01_tr_sbuf_len.
+
+Theorem C01_tr_sbuf_cut : forall m p cs sz len d fuel, sbuf_rep m p cs sz -> (0 <= len <= 2147483647)%Z ->
+  exists m', callf cprog fuel (S d) F_sbuf_cut [VPtr p 0; VInt len] m = Ok (VUndef, m') /\
+    sbuf_rep m' p (firstn (Z.to_nat len) cs) sz /\ sbuf_step m m' p /\ sbuf_datab m' p = sbuf_datab m p /\ length m' = length m.
+Proof. exact tr_sbuf_cut. Qed.
+Print Assumptions C01_tr_sbuf_cut.
+
+(* sbuf_extend: a bigger block is allocated, the old contents copied, the old block freed (emptied) *)
+Theorem C01_tr_sbuf_extend : forall m p cs sz newsz d fuel,
+  sbuf_rep m p cs sz -> (Z.of_nat (length cs) < newsz <= 2147483647)%Z ->
+  exists m', callf cprog fuel (S d) F_sbuf_extend [VPtr p 0; VInt newsz] m = Ok (VUndef, m') /\
+    sbuf_rep m' p cs newsz /\ sbuf_step m m' p /\ sbuf_datab m' p = Some (length m) /\ length m' = S (length m) /\
+    (forall bo, sbuf_datab m p = Some bo -> nth_error m' bo = Some []).
+Proof. exact tr_sbuf_extend. Qed.
+Print Assumptions C01_tr_sbuf_extend.
+
+(* sbuf_mem(sb, s, len): the source is `len` int cells at offset os of a block other than the struct and its data block *)
+Theorem C01_tr_sbuf_mem : forall m p cs sz bs os sblk src d fuel,
+  sbuf_rep m p cs sz -> bs <> p -> sbuf_datab m p <> Some bs -> nth_error m bs = Some sblk -> (0 <= os)%Z ->
+  (os + Z.of_nat (length src) <= Z.of_nat (length sblk))%Z ->
+  firstn (length src) (skipn (Z.to_nat os) sblk) = map VInt src ->
+  sbuf_fits sz (Z.of_nat (length src) + 1) ->
+  let sb' := IoDefs.sbuf_mem (sb_model cs sz) (map byte_of src) in
+  exists m', callf cprog fuel (S (S d)) F_sbuf_mem [VPtr p 0; VPtr bs os; VInt (Z.of_nat (length src))] m = Ok (VUndef, m') /\
+    sbuf_rep m' p (cs ++ src) (sb_sz sb') /\ sb' = sb_model (cs ++ src) (sb_sz sb') /\ sbuf_step m m' p.
+Proof. exact tr_sbuf_mem. Qed.
+Print Assumptions C01_tr_sbuf_mem.
+
+(* sbuf_str(sb, s): s points into a NUL-terminated string (strlen is a builtin of CLite.v) *)
+Theorem C01_tr_sbuf_str : forall m p cs sz bs s o d fuel,
+  sbuf_rep m p cs sz -> bs <> p -> sbuf_datab m p <> Some bs -> str_at m bs s -> nonul s -> (o <= length s)%nat ->
+  (Z.of_nat (length s) <= 2147483647)%Z ->
+  let t := skipn o s in
+  sbuf_fits sz (Z.of_nat (length t) + 1) ->
+  let sb' := IoDefs.sbuf_mem (sb_model cs sz) t in
+  exists m', callf cprog fuel (S (S (S d))) F_sbuf_str [VPtr p 0; VPtr bs (Z.of_nat o)] m = Ok (VUndef, m') /\
+    sbuf_rep m' p (cs ++ zb t) (sb_sz sb') /\ sb' = sb_model (cs ++ zb t) (sb_sz sb') /\ sbuf_step m m' p.
+Proof. exact tr_sbuf_str. Qed.
+Print Assumptions C01_tr_sbuf_str.
+
+(* sbuf_chr(sb, c): `sbuf->s[sbuf->s_n++] = c` -- the ++ on the field is CLite's EIncMem; the cell holds (char) c *)
+Theorem C01_tr_sbuf_chr : forall m p cs sz c d fuel,
+  sbuf_rep m p cs sz -> sbuf_fits sz 1 ->
+  let sb' := IoDefs.sbuf_chr (sb_model cs sz) (byte_of c) in
+  exists m', callf cprog fuel (S (S d)) F_sbuf_chr [VPtr p 0; VInt c] m = Ok (VUndef, m') /\
+    sbuf_rep m' p (cs ++ [wrap I8 c]) (sb_sz sb') /\ sb' = sb_model (cs ++ [wrap I8 c]) (sb_sz sb') /\ sbuf_step m m' p.
+Proof. exact tr_sbuf_chr. Qed.
+Print Assumptions C01_tr_sbuf_chr.
+
+(* sbuf_buf: the terminator is stored INSIDE the allocation (index |cs| < sz' = the length of the data block), the pointer
+   returned is the start of the data block; a buffer that never held anything gets one cell *)
+Theorem C01_tr_sbuf_buf : forall m p cs sz d fuel,
+  sbuf_rep m p cs sz ->
+  let sz' := sb_sz (IoDefs.sbuf_buf (sb_model cs sz)) in
+  exists b m' rest, callf cprog fuel (S (S d)) F_sbuf_buf [VPtr p 0] m = Ok (VPtr b 0, m') /\
+    sbuf_rep m' p cs sz' /\ sbuf_datab m' p = Some b /\
+    nth_error m' b = Some (map VInt cs ++ VInt 0 :: rest) /\ Z.of_nat (length cs + S (length rest)) = sz' /\
+    (Z.of_nat (length cs) < sz')%Z /\
+    sbuf_step m m' p /\ (sbuf_datab m p = Some b \/ (length m <= b)%nat).
+Proof. exact tr_sbuf_buf. Qed.
+Print Assumptions C01_tr_sbuf_buf.
+
+(* sbuf_done: the terminated string is returned, the struct is freed, nothing else changes *)
+Theorem C01_tr_sbuf_done : forall m p cs sz d fuel,
+  sbuf_rep m p cs sz ->
+  exists b m' rest, callf cprog fuel (S (S (S d))) F_sbuf_done [VPtr p 0] m = Ok (VPtr b 0, m') /\
+    nth_error m' b = Some (map VInt cs ++ VInt 0 :: rest) /\ nth_error m' p = Some [] /\ b <> p /\
+    (sbuf_datab m p = Some b \/ (length m <= b)%nat) /\ (length m <= length m')%nat /\
+    forall b', (b' < length m)%nat -> b' <> p -> sbuf_datab m p <> Some b' -> nth_error m' b' = nth_error m b'.
+Proof. exact tr_sbuf_done. Qed.
+Print Assumptions C01_tr_sbuf_done.
+
+(* sbuf_free: the data block and the struct are freed, nothing else changes *)
+Theorem C01_tr_sbuf_free : forall m p cs sz d fuel,
+  sbuf_rep m p cs sz ->
+  exists m', callf cprog fuel (S d) F_sbuf_free [VPtr p 0] m = Ok (VUndef, m') /\
+    nth_error m' p = Some [] /\ (forall bo, sbuf_datab m p = Some bo -> nth_error m' bo = Some []) /\
+    length m' = length m /\
+    forall b', b' <> p -> sbuf_datab m p <> Some b' -> nth_error m' b' = nth_error m b'.
+Proof. exact tr_sbuf_free. Qed.
+Print Assumptions C01_tr_sbuf_free.
+
+(* ANY sequence of sbuf_chr / sbuf_mem / sbuf_str calls on the C text is the fold of the model over the same operations *)
+Theorem C01_tr_sbuf_ops : forall m p cs sz ops d fuel,
+  sbuf_rep m p cs sz -> Forall (op_src_ok m p) ops -> ops_fit (sb_model cs sz) ops ->
+  let sbk := fold_left op_model ops (sb_model cs sz) in
+  let csk := cs ++ flat_map op_cells ops in
+  exists m', run_ops fuel (S (S (S d))) p ops m = Ok m' /\
+    sbuf_rep m' p csk (sb_sz sbk) /\ sbk = sb_model csk (sb_sz sbk) /\ sbuf_step m m' p.
+Proof. exact tr_sbuf_ops. Qed.
+Print Assumptions C01_tr_sbuf_ops.
+
+(* C01_capacity ON THE C TEXT: after ANY such sequence, the terminator written by sbuf_buf lies inside the allocation -- the
+   call returns Ok (a store outside its block is Err EOob), the data block is cells ++ 0 :: rest and is exactly as long as
+   the model's capacity sb_sz, and sb_n < sb_sz *)
+Theorem C01_tr_sbuf_terminator_inside : forall m p cs sz ops d fuel,
+  sbuf_rep m p cs sz -> Forall (op_src_ok m p) ops -> ops_fit (sb_model cs sz) ops ->
+  let sbk := IoDefs.sbuf_buf (fold_left op_model ops (sb_model cs sz)) in
+  let csk := cs ++ flat_map op_cells ops in
+  exists m1 b m2 rest, run_ops fuel (S (S (S d))) p ops m = Ok m1 /\
+    callf cprog fuel (S (S d)) F_sbuf_buf [VPtr p 0] m1 = Ok (VPtr b 0, m2) /\
+    nth_error m2 b = Some (map VInt csk ++ VInt 0 :: rest) /\
+    Z.of_nat (length (map VInt csk ++ VInt 0 :: rest)) = sb_sz sbk /\ sb_n sbk = Z.of_nat (length csk) /\ (0 <= sb_n sbk < sb_sz sbk)%Z /\
+    sbuf_rep m2 p csk (sb_sz sbk) /\ sbuf_step m m2 p /\ sbuf_datab m2 p = Some b /\ sbk = sb_model csk (sb_sz sbk).
+Proof. exact tr_sbuf_terminator_inside. Qed.
+Print Assumptions C01_tr_sbuf_terminator_inside.
+
+(* from sbuf_make on, with less than 500 MB of text, no hypothesis about sizes is left: make, any operations, buf *)
+Theorem C01_tr_sbuf_from_make : forall (m0 : mem) ops d fuel,
+  let p := length m0 in
+  let m : mem := m0 ++ [[VInt 0; VInt 0; VInt 0]] in
+  Forall (op_src_ok m p) ops -> (ops_total ops <= 500000000)%Z ->
+  let sbk := IoDefs.sbuf_buf (fold_left op_model ops IoDefs.sbuf_make) in
+  let csk := flat_map op_cells ops in
+  callf cprog fuel (S d) F_sbuf_make [] m0 = Ok (VPtr p 0, m) /\
+  exists m1 b m2 rest, run_ops fuel (S (S (S d))) p ops m = Ok m1 /\
+    callf cprog fuel (S (S d)) F_sbuf_buf [VPtr p 0] m1 = Ok (VPtr b 0, m2) /\
+    nth_error m2 b = Some (map VInt csk ++ VInt 0 :: rest) /\
+    Z.of_nat (length (map VInt csk ++ VInt 0 :: rest)) = sb_sz sbk /\ sb_data sbk = map byte_of csk /\ (0 <= sb_n sbk < sb_sz sbk)%Z /\
+    (length m0 < b)%nat /\ forall b', (b' < length m0)%nat -> nth_error m2 b' = nth_error m0 b'.
+Proof. exact tr_sbuf_from_make. Qed.
+Print Assumptions C01_tr_sbuf_from_make.
+
+(* not vacuous, and the translated functions RUN.  Memory: one block, the string "abc".  sbuf_make allocates the struct (block 1);
+   sbuf_str(sb, "abc") allocates 128 cells (block 2) and copies; sbuf_chr(sb, 'd'); sbuf_buf terminates and returns block 2.
+   The resulting blocks are shown; the model computes the same contents and capacity; sbuf_rep holds of the result;
+   sbuf_done then frees the struct, and a second free of it is an error of the semantics *)
+Example C01_tr_sbuf_nonvacuous :
+  let m0 : mem := [cstr_block (zb [97; 98; 99]%N)] in
+  let m1 : mem := m0 ++ [[VInt 0; VInt 0; VInt 0]] in
+  let data := map VInt [97; 98; 99; 100; 0]%Z ++ repeat VUndef 123 in
+  let m4 : mem := [cstr_block (zb [97; 98; 99]%N); [VPtr 2 0; VInt 4; VInt 128]; data] in
+  callf cprog 1 3 F_sbuf_make [] m0 = Ok (VPtr 1 0, m1) /\
+  (do (_, m2) <- callf cprog 1 3 F_sbuf_str [VPtr 1 0; VPtr 0 0] m1;
+   do (_, m3) <- callf cprog 1 3 F_sbuf_chr [VPtr 1 0; VInt 100] m2;
+   callf cprog 1 3 F_sbuf_buf [VPtr 1 0] m3) = Ok (VPtr 2 0, m4) /\
+  run_ops 1 3 1 [OpStr 0 0 [97; 98; 99]%N; OpChr 100] m1 = Ok [cstr_block (zb [97; 98; 99]%N); [VPtr 2 0; VInt 4; VInt 128]; map VInt [97; 98; 99; 100]%Z ++ repeat VUndef 124] /\
+  IoDefs.sbuf_buf (IoDefs.sbuf_chr (IoDefs.sbuf_mem IoDefs.sbuf_make [97; 98; 99]%N) 100%N) = {| sb_data := [97; 98; 99; 100]%N; sb_n := 4; sb_sz := 128 |} /\
+  sbuf_rep m4 1 [97; 98; 99; 100]%Z 128 /\ sbuf_rep m1 1 [] 0 /\
+  Forall (op_src_ok m1 1) [OpStr 0 0 [97; 98; 99]%N; OpChr 100] /\ ops_fit IoDefs.sbuf_make [OpStr 0 0 [97; 98; 99]%N; OpChr 100] /\
+  callf cprog 1 3 F_sbuf_len [VPtr 1 0] m4 = Ok (VInt 4, m4) /\
+  callf cprog 1 3 F_sbuf_done [VPtr 1 0] m4 = Ok (VPtr 2 0, [cstr_block (zb [97; 98; 99]%N); []; data]) /\
+  callf cprog 1 3 F_sbuf_free [VPtr 1 0] [cstr_block (zb [97; 98; 99]%N); []; data] = Err EOob.
+Proof.
+  cbv zeta. split; [vm_compute; reflexivity|]. split; [vm_compute; reflexivity|].
+  split; [vm_compute; reflexivity|]. split; [vm_compute; reflexivity|].
+  split; [right; exists 2%nat, (VInt 0 :: repeat VUndef 123); split; [discriminate|]; split; [reflexivity|]; split; [reflexivity|];
+          split; [reflexivity|]; split; [vm_compute; repeat constructor|vm_compute; discriminate]|].
+  split; [left; repeat split|].
+  split; [repeat constructor; try discriminate; vm_compute; discriminate|].
+  split; [cbn [ops_fit]; unfold sbuf_fits; repeat split; vm_compute; discriminate|].
+  split; [vm_compute; reflexivity|]. split; vm_compute; reflexivity.
+Qed.
+End C01_translated_sbuf.
